@@ -27,9 +27,10 @@ TIERS = {
 
 RULE = ("first, bounded-exhaustively: every history of length <= 2 (quick) / <= 4 (thorough) over "
         "the alphabet {create(f2003), create(f2008), 8 fixed valid, 5 fixed invalid programs, 2 files "
-        "that INCLUDE a same-named file from different directories}, "
+        "that INCLUDE a same-named file from different directories, deletion and rewriting of one "
+        "of those include files}, "
         "each followed by create(s); parse(x) for both standards and 4 fixed probe programs "
-        "(306 / 88740 runs at most; longer histories over the same alphabet are sampled, enumerated by run index); then, for the rest of the budget, one "
+        "(380 / 7239 runs; longer histories over the same alphabet are sampled, enumerated by run index); then, for the rest of the budget, one "
         "run = one seeded history of <=12 operations over {create(f2003|f2008|None|invalid), "
         "parse(valid_i|invalid_j, reader options, reader kind, stream fault at line k), direct "
         "rule use, fparser1 api.parse, print of an earlier tree, edit of an earlier tree, memo "
@@ -51,7 +52,7 @@ COMPONENTS = {
     "stub": ["the caller (seeded history)", "line stream with EOF / error at line k",
              "process exit (SystemExit trap)"],
 }
-PROBES = ["sampled_alphabet_history_run", "history_with_include_files", "exhaustive_history_run", "failing_parse_scope_depth_ge2", "main_program0_path", "same_unit_name_consecutive",
+PROBES = ["file_system_changed_between_parses", "sampled_alphabet_history_run", "history_with_include_files", "exhaustive_history_run", "failing_parse_scope_depth_ge2", "main_program0_path", "same_unit_name_consecutive",
           "compared_in_clean_state", "compared_after_failure", "block_counter_nonzero_at_compare",
           "fparser1_interleaved", "create_switches_std", "stream_fault_failure",
           "failure_in_unclean_state", "exit_trapped"]
@@ -266,6 +267,12 @@ use um, lc => c
 use um, only:
 x = 2
 end subroutine us2
+subroutine us3(v, w)
+use um, only: a
+use um, only: max, dot_product, sin, cos
+real :: v(3), w(3)
+x = max(1.0, 2.0) + dot_product(v, w) + sin(1.0) + cos(2.0)
+end subroutine us3
 """
 # one tiny program per Fortran 2008-only piece of syntax: under f2003 each must be rejected
 # whatever an f2008 parser did earlier in the same process
@@ -316,7 +323,7 @@ ALPHABET_POOL = {
     "X3": "program p\nx = max(1, 2)\nblock\ny = 1\nend block\nend program p\n",
 }
 ALPHABET = ["c03", "c08", "V1", "V2", "V3", "V4", "V5", "V6", "V7", "V8", "I1", "I2", "I3", "I4",
-            "I5", "Fa", "Fb"]
+            "I5", "Fa", "Fb", "Db", "Wb"]
 for _k, _t in enumerate(F08_ONLY):
     ALPHABET_POOL["N%d" % _k] = _t
 # the fixed file system of the alphabet: two directories whose main files INCLUDE a file of the
@@ -328,6 +335,9 @@ ALPHABET_FS = {
     "b/frag.inc": " real :: from_b\n from_b = sin(2.0)\n",
 }
 FILE_SYMS = {"Fa": "a/main.f90", "Fb": "b/main.f90"}
+# the file system changes between parses: the include file of b is deleted / rewritten
+FS_SYMS = {"Db": ["fs_delete", "b/frag.inc"],
+           "Wb": ["fs_write", "b/frag.inc", " logical :: from_b2\n from_b2 = .true.\n"]}
 
 
 def exhaustive_count(max_len):
@@ -358,6 +368,8 @@ def _exhaustive_case(index):
             ops.append(["create", "f2008"])
         elif sym in FILE_SYMS:
             ops.append(["parse", FILE_SYMS[sym], plain, "file", None])
+        elif sym in FS_SYMS:
+            ops.append(list(FS_SYMS[sym]))
         else:
             ops.append(["parse", sym, plain, "string", None])
     for std in ("f2003", "f2008"):
@@ -498,6 +510,13 @@ def generate(run_seed, cfg):
             fops.append(["parse", path, {"ignore_comments": True}, "file", None])
             if sw.random() < 0.4:
                 fops.append(["create", sw.choice(["f2003", "f2008"])])
+            if sw.random() < 0.35:
+                tgt = sw.choice(["a/frag.inc", "b/frag.inc"])
+                if sw.random() < 0.5:
+                    fops.append(["fs_delete", tgt])
+                else:
+                    fops.append(["fs_write", tgt, sw.choice([frag_a, frag_b,
+                                                             " logical :: other\n other = .true.\n"])])
         pos = sw.randrange(1, len(ops))
         case["ops"] = ops[:pos] + fops + ops[pos:]
         for path in image:
@@ -584,20 +603,33 @@ def execute(case):
     # standard the model says is current at that point
     std = None
     refs = {}
+    image_now = dict(case.get("fs") or {})
+    fs_changed = False
+    op_ref_key = {}
     for k, op in enumerate(ops):
         if op[0] == "create":
             std = op[1] or "f2003"
+        elif op[0] == "fs_write":
+            image_now[op[1]] = op[2]
+            fs_changed = True
+        elif op[0] == "fs_delete":
+            image_now.pop(op[1], None)
+            fs_changed = True
         elif op[0] == "parse":
-            key = (std, op[1], repr(sorted(op[2].items())), op[3], repr(op[4]))
+            fs_tag = fp.sha(repr(sorted(image_now.items()))) if (op[3] == "file" and fs_changed) \
+                else ""
+            key = (std, op[1], repr(sorted(op[2].items())), op[3], repr(op[4]), fs_tag)
+            op_ref_key[k] = key
             cached = (case.get("_cache_refs") or {}).get("%s|%s" % (std, op[1]))
             if key not in refs and cached is not None and op[3] in ("string", "file") and \
-                    op[2] == {"ignore_comments": True} and "exhaustive_index" in case:
+                    op[2] == {"ignore_comments": True} and "exhaustive_index" in case and \
+                    not fs_tag:
                 refs[key] = cached
             if key not in refs:
                 if op[3] == "lines":
                     refs[key] = _ref_lines(std, pool[op[1]], op[2], op[4])
                 elif op[3] == "file":
-                    refs[key] = ref.outcome(std, "file", op[1], op[2], image=case["fs"])
+                    refs[key] = ref.outcome(std, "file", op[1], op[2], image=dict(image_now))
                 else:
                     refs[key] = ref.outcome(std, "string", pool[op[1]], op[2])
     host.install_log_counter()
@@ -655,7 +687,7 @@ def execute(case):
                 violate("C09.d invalid-standard-changes-registry", "create", {"std": op[1]})
         elif op[0] == "parse":
             text = pool[op[1]]
-            key = (std, op[1], repr(sorted(op[2].items())), op[3], repr(op[4]))
+            key = op_ref_key[k]
             want = refs[key]["outcome"]
             before_scope, before_tables = fp.tables_snapshot()
             names_before = fp.table_names()
@@ -730,6 +762,14 @@ def execute(case):
             else:
                 clean = False
                 trees.append(tree)
+        elif op[0] == "fs_write" and fs is not None:
+            fs.write(op[1], op[2].encode("utf-8"))
+            probe("file_system_changed_between_parses")
+            events.append(["fs_write", op[1]])
+        elif op[0] == "fs_delete" and fs is not None:
+            fs.remove(op[1])
+            probe("file_system_changed_between_parses")
+            events.append(["fs_delete", op[1]])
         elif op[0] == "rule":
             from fparser.two import Fortran2003
 
